@@ -3,13 +3,17 @@ use crate::engine::Property;
 pub mod c02;
 pub mod c05;
 pub mod c06;
+pub mod c11;
 pub mod c13;
+pub mod c14;
 
 pub fn all() -> Vec<&'static dyn Property> {
     vec![
         &c02::C02,
         &c05::C05,
         &c06::C06,
+        &c11::C11,
         &c13::C13,
+        &c14::C14,
     ]
 }
